@@ -124,6 +124,7 @@ type hist = {
   mutable init_kept : (n * n) list;        (* blocks a failed initialiser allocated and kept *)
   uniform : n;                             (* 0, or the one alignment of a uniform history *)
   mutable ubytes : n;                      (* uniform history: bytes allocated since the last reset *)
+  mutable lim_sane : bool;                 (* the limit in force was not set below what was then held *)
   mutable generous : bool;                 (* so far every chunk was obtained at the first attempt with no limit in force *)
 }
 
@@ -150,7 +151,7 @@ let new_hist (line : string) : hist =
     report_spec ~prop:"C04" ~pred:"cfg_ok" ~detail:("the_static_EMPTY_CHUNK_or_the_constants_do_not_meet_cfg_ok:eaddr=" ^ get "eaddr" ^ "_malign=" ^ get "malign");
   { k; b = fresh; held = []; live = []; p_ab = N0; p_abim = N0; p_cap = N0; p_chunks = [];
     feat = []; sig_ = Buffer.create 256; tw_sizes = []; tw_slots = []; dead = false; born_in_init = []; init_kept = [];
-    uniform = (try n_of_string (get "uniform") with Not_found -> N0); ubytes = N0; generous = true }
+    uniform = (try n_of_string (get "uniform") with Not_found -> N0); ubytes = N0; generous = true; lim_sane = true }
 
 let lay s a = { l_size = n_of_string s; l_align = n_of_string a }
 
@@ -439,6 +440,20 @@ let handle_op (h : hist) (line : string) =
      | _ -> ());
     if (ires = "err" || impl_oom) && b0.limit <> None && o.reqs = [] && kind = "alloc" then
       (feature h "limit_refusal"; bump_count "feat:limit_refusal");
+    (* C07, whole history: while the limit in force was not set below what was then held, the bytes
+       the implementation reports as held for allocation never exceed it *)
+    (match mi.mop with
+     | OSetLimit None -> h.lim_sane <- true
+     | OSetLimit (Some l') -> h.lim_sane <- N.leb h.p_ab l'
+     | OWithCapacity _ when b0.limit <> None -> h.lim_sane <- false
+     | _ -> ());
+    (match b1.limit with
+     | Some l when h.lim_sane ->
+       bump_count "limit_history_checks";
+       if not (N.leb o.iab l) then
+         report_spec ~prop:"C07" ~pred:"held_never_exceeds_limit"
+           ~detail:(Printf.sprintf "limit=%s allocated_bytes=%s" (string_of_n l) (string_of_n o.iab))
+     | _ -> ());
     h.b <- b1;
     h.p_ab <- o.iab; h.p_abim <- o.iabim; h.p_cap <- o.icap; h.p_chunks <- o.ichunks
 
